@@ -64,7 +64,7 @@ func Replay(property, path string) int {
 		if d.Hang {
 			what = fmt.Sprintf("burnt %s inside one Plan call (hang)", hangAfter)
 		}
-		fmt.Printf("  the worker %s in evaluation #%d of the case\n%s\n", what, d.Info.Eval, tail(d.Stderr, 2000))
+		fmt.Printf("  the worker %s in evaluation #%d of the case\n%s\n", what, d.Info.Eval, planStack(d.Stderr))
 	}
 	var rp *response
 	t0 := time.Now()
